@@ -281,7 +281,11 @@ def main(argv):
 
     violations = []
     if fresh:
-        f = fresh[0]
+        # report the simplest failing case: fewest non-zero hex digits / shortest operands
+        def simplicity(f):
+            args = f['line'].split()[1:]
+            return (sum(1 for a in args for ch in a if ch not in '0-'), len(f['line']))
+        f = min(fresh, key=simplicity)
         rp = write_replay(pid, st, {'kind': 'oracle', 'clause': f['clause'], 'detail': f['detail'], 'cases': [f['line']], 'impl_answer': f['impl'],
                                     'n_failures': len(fresh), 'clauses': sorted({x['clause'] for x in fresh}), 'seed': seed,
                                     'broken_obligations': broken})
